@@ -172,8 +172,8 @@ impl Check for C03 {
     }
     fn runs(&self, tier: Tier) -> u64 {
         match tier {
-            Tier::Quick => 200_000,
-            Tier::Thorough => 12_000_000,
+            Tier::Quick => 1_000_000,
+            Tier::Thorough => 60_000_000,
         }
     }
     fn generate(&self, rng: &mut Rng, index: u64, _tier: Tier) -> Scenario {
